@@ -130,22 +130,25 @@ impl<'t> UserActionsTrait<'t> for CheckActions {
 
 fn process_body(start: usize, la: &'static [LookaheadDFA], prods: &'static [Production], tn: &'static [&'static str], nt: &'static [&'static str]) {
     let fname = Arc::new(PathBuf::new());
+    // ONE parser object completes all productions one after the other (as parse_into does), so
+    // state that the implementation carries from one completed production to the next is part
+    // of the pre-state of every later step; options are symbolic, chosen once
+    let mut p = LLKParser::new(start, la, prods, tn, nt);
+    let trim: bool = kani::any();
+    if trim {
+        p.trim_parse_tree();
+    }
+    let recovering: bool = kani::any();
+    if recovering {
+        p.error_entries.push(SyntaxError::default());
+    }
+    // pre-state: an unrelated entry below, then per step the entries of the right-hand side in
+    // grammar order (what the loop pushes while it consumes them)
+    p.parse_tree_stack.push(ParseTreeType::N(nt[0]));
     let mut pi = 0;
     while pi < prods.len() {
         let rhs = prods[pi].production; // stored reversed
         let l = rhs.len();
-        let mut p = LLKParser::new(start, la, prods, tn, nt);
-        let trim: bool = kani::any();
-        if trim {
-            p.trim_parse_tree();
-        }
-        let recovering: bool = kani::any();
-        if recovering {
-            p.error_entries.push(SyntaxError::default());
-        }
-        // pre-state: an unrelated entry below, the production entry, then one entry per symbol of
-        // the right-hand side in grammar order (what the loop pushes while it consumes them)
-        p.parse_tree_stack.push(ParseTreeType::N(nt[0]));
         let mut acts = CheckActions { calls: 0, prod: usize::MAX, nchild: 0, kinds_ok: true, expect: [0; 8], expect_n: [false; 8] };
         let mut i = 0;
         while i < l {
@@ -175,9 +178,9 @@ fn process_body(start: usize, la: &'static [LookaheadDFA], prods: &'static [Prod
         }
         assert!(tree.closes == if trim { 0 } else { 1 });
         core::mem::forget(r);
-        core::mem::forget(p);
         pi += 1;
     }
+    core::mem::forget(p);
 }
 
 macro_rules! ll_steps {
